@@ -56,8 +56,9 @@ def gen_config(rng, thorough, ci=0):
     decay = [0.5, 0.25, 0.8, 0.0, 0.75, 1.0, 0.875][(ci // len(combos)) % 7]
     kw = dict(dim=d * heads, codebook_size=K, heads=heads, separate_codebook_per_head=sep, codebook_dim=d, use_cosine_sim=cosine,
               decay=decay, threshold_ema_dead_code=0)
-    if rng.random() < 0.2:
-        kw['eps'] = rng.choice([1e-5, 1e-3, 0.5])
+    eps_pick = [None, 1e-3, 0.5][(ci // len(combos)) % 3]          # cycled (not sampled): every metric x head-mode combination meets a non-default eps
+    if eps_pick is not None:
+        kw['eps'] = eps_pick
     if rng.random() < 0.15:
         kw['manual_ema_update'] = True
     vq = VectorQuantize(**kw)
